@@ -99,11 +99,27 @@ def leaf_eq_any(l1, l2):
         return True
     return leaf_eq_nan(l1, l2)
 
-def check_ref(fx, rule, ident, ref, what, body=None, keep=(), inst=None, key=None, alt=()):
+def unlift_option(t):
+    """the tree of a helper that returns Option<T> read as the helper returning T: Some(v) -> v; None -> not reached (its callers
+    unwrap, so a None is a panic there and the business of the totality rule)"""
+    if t[0] == "if":
+        return ("if", t[1], unlift_option(t[2]), unlift_option(t[3]))
+    if t[0] == "switch":
+        return ("switch", t[1], tuple((v, unlift_option(x)) for v, x in t[2]), unlift_option(t[3]))
+    if t[0] == "leaf" and tag(t[1]) == "agg" and t[1][1][0] == "adt" and t[1][1][1].endswith("Option"):
+        if t[1][1][3] == "Some" and len(t[1][2]) == 1:
+            return ("leaf", t[1][2][0], t[2])
+        if t[1][1][3] == "None":
+            return ("unreachable",)
+    return t
+
+def check_ref(fx, rule, ident, ref, what, body=None, keep=(), inst=None, key=None, alt=(), unlift=False):
     rep = fx.rep
     inst = inst or ident
     try:
         t, b = fx.tree(ident, body, keep)
+        if unlift and t is not None:
+            t = vg.map_tree(unlift_option(t), fx.N.norm)
     except vg.Unsupported as u:
         rep.fail(rule, inst, "unsupported:" + ident, "cannot evaluate %s: %s" % (ident, u)); return False
     if t is None:
@@ -437,7 +453,8 @@ def check_C14(ctx, rep):
     if frac is None or find_table(fx, "exp((i-k)/128)-1", 32, 65) is None:
         return
     pol = vg.Policy(f, "op")
-    eh_all = [b for b in fx.by_sig(["i32"], TF) if not b.reachable]
+    # (the helper may also hand back an Option for its callers to unwrap: `None` where it used to assert)
+    eh_all = [b for b in fx.by_sig(["i32"], TF) + fx.by_sig(["i32"], "core::option::Option<TwoFloat>") if not b.reachable]
     eh = [b for b in eh_all if pol.has_loop_or_recursion(b)]             # the table function: self-recursive ...
     if not eh:
         # ... or with the recursion unfolded: the private fn(i32) -> TwoFloat that indexes the exp(16 n) table
@@ -479,6 +496,9 @@ def check_C14(ctx, rep):
     if len(eh) != 1 or len(mp) != 1:
         return
     EH = eh[0].ident(); MP = mp[0].ident()
+    eh_lifted = eh[0].output != TF
+    if eh_lifted:
+        fx.N.lifted.add(EH); fx.N.memo = {}
     # ---- exp
     def exp_ref(t):
         s = param(0)
@@ -518,8 +538,12 @@ def check_C14(ctx, rep):
             rep.fail("R35", "exp_half tables", "anchor-lost:exp-tables", "exp(16 n) / exp(n/2) tables not identified (reason=anchor-lost)"); return None
         lim = None
         for nn in all_nodes(t[1]) if t[0] == "if" else []:
-            if tag(nn) == "cmp" and nn[1] == "lt" and nn[3] is n and tag(nn[4]) == "const":
-                lim = vg.to_signed("i32", nn[4][2])
+            # `n < L` (assert!(n < L)) or its complement `n >= L` (if n >= L { return None }), in either operand order
+            if tag(nn) == "cmp" and nn[2] == "i32":
+                if nn[3] is n and tag(nn[4]) == "const" and nn[1] in ("lt", "ge", "le", "gt"):
+                    c_ = vg.to_signed("i32", nn[4][2]); lim = c_ if nn[1] in ("lt", "ge") else c_ + 1
+                elif nn[4] is n and tag(nn[3]) == "const" and nn[1] in ("gt", "le", "ge", "lt"):
+                    c_ = vg.to_signed("i32", nn[3][2]); lim = c_ if nn[1] in ("gt", "le") else c_ + 1
         n16 = idioms.array_len(t16); nh = idioms.array_len(th)
         ok = lim is not None and lim <= 32 * (n16 + 1) and nh >= 31
         rep.check(ok, "R35", "exp_half index limit", "exp-half-limit", "exp_half accepts n < %r but its tables cover n < %d" % (lim, 32 * (n16 + 1)), detail={"limit": lim, "exp16_entries": n16, "half_entries": nh})
@@ -547,7 +571,8 @@ def check_C14(ctx, rep):
         flat = IF(mk("cmp", "lt", "i32", n, limc),
                   IF(isneg, IF(mk("cmp", "lt", "i32", negn, limc), body_of(negn, lambda v: 1.0 / v), PANIC), body), PANIC)
         return main, [flat]
-    check_ref(fx, "R35", EH, exp_half_ref, "n<limit; n<0 -> 1/exp_half(-n); (a,b)=(n/32,n%32); exp16[a-1]*exphalf[b-1] with empty factors dropped", body=eh[0], inst="exp_half (exp(n/2) from tables)")
+    check_ref(fx, "R35", EH, exp_half_ref, "n<limit; n<0 -> 1/exp_half(-n); (a,b)=(n/32,n%32); exp16[a-1]*exphalf[b-1] with empty factors dropped", body=eh[0], inst="exp_half (exp(n/2) from tables)",
+              unlift=eh_lifted)
     check_exp_m1(fx, frac)
     # ---- exp_m1 (see check_exp_m1)
     def exp_m1_ref_unused(t):
